@@ -1395,6 +1395,21 @@ class GeoboxTiles:
         ry, rx = self._tiles[idx]
         return BoundingBox(rx.start, ry.start, rx.stop, ry.stop)
 
+    def _bbox_polygon(self, bbox: BoundingBox) -> Geometry:
+        """
+        Outline of a bounding box, ready to be projected into CRS of this GeoBox.
+
+        Sides of a box are not straight lines in other projections, so extra
+        points are added along them when CRSs differ.
+        """
+        poly = bbox.polygon
+        if bbox.crs is None or bbox.crs == self._gbox.crs:
+            return poly
+        step = max(bbox.span_x, bbox.span_y) / 100
+        if step > 0 and math.isfinite(step):
+            poly = poly.segmented(step)
+        return poly
+
     def range_from_bbox(self, bbox: BoundingBox) -> Tuple[range, range]:
         """
         Intersect with a bounding box.
@@ -1403,7 +1418,7 @@ class GeoboxTiles:
         """
 
         if bbox.crs is not None:
-            bbox = self._gbox.project(bbox.polygon).boundingbox
+            bbox = self._gbox.project(self._bbox_polygon(bbox)).boundingbox
 
         def _clamp(span: Tuple[float, float], N: int):
             a1, a2 = span
@@ -1439,7 +1454,7 @@ class GeoboxTiles:
                 # special case for bounding box in pixel domain
                 yield from self._tiles_from_pix_bbox(query)
                 return
-            poly = query.polygon
+            poly = self._bbox_polygon(query)
         else:
             poly = query
 
